@@ -188,9 +188,25 @@ func (t *tr) typeOf(e ast.Expr) types.Type {
 	return tv.Type
 }
 
+func norm(s string) string { return strings.ReplaceAll(s, " ", "") }
+
+// leafFits checks that the Go type of e has the width the leaf was declared
+// with (two variables of the same name but different types are not confused).
+func (t *tr) leafFits(e ast.Expr, lf leaf) bool {
+	ty := t.typeOf(e)
+	if lf.Type == "Bool" {
+		return isBool(ty)
+	}
+	w, _, ok := width(ty)
+	if !ok && timeLike(ty) {
+		w, ok = 64, true
+	}
+	return ok && lf.Type == fmt.Sprintf("BitVec %d", w)
+}
+
 func (t *tr) expr(e ast.Expr) val {
 	txt := types.ExprString(e)
-	if lf, ok := t.leaves[txt]; ok {
+	if lf, ok := t.leaves[norm(txt)]; ok && t.leafFits(e, lf) {
 		t.used[txt] = true
 		return val{lf.Lean, t.typeOf(e)}
 	}
@@ -391,6 +407,9 @@ type walker struct {
 	retSrc  []string
 	indexes map[string][]string // indexed expression text -> translated index terms (distinct)
 	skipped []string
+	captured map[string]val
+	fields  map[string]string
+	wantFields []string
 }
 
 func endsInExit(b *ast.BlockStmt) bool {
@@ -435,6 +454,13 @@ func copyEnv(e map[string]val) map[string]val {
 }
 
 func (w *walker) assign(lhs []ast.Expr, rhs []ast.Expr, guard string) {
+	w.assignT(lhs, rhs, guard, false)
+}
+
+func (w *walker) assignT(lhs []ast.Expr, rhs []ast.Expr, guard string, define bool) {
+	if define {
+		guard = ""
+	}
 	// bits.Mul64 / bits.Div64
 	if len(rhs) == 1 {
 		if c, ok := rhs[0].(*ast.CallExpr); ok {
@@ -516,15 +542,34 @@ func (w *walker) bind(l ast.Expr, v val, guard string) {
 		v = val{fmt.Sprintf("(if %s then %s else %s)", guard, v.Lean, old.Lean), v.T}
 	}
 	w.env[id.Name] = v
+	if w.captured == nil {
+		w.captured = map[string]val{}
+	}
+	w.captured[id.Name] = v
 }
 
 func (w *walker) noteIndexes(n ast.Node) {
 	ast.Inspect(n, func(m ast.Node) bool {
+		if kv, ok := m.(*ast.KeyValueExpr); ok {
+			if id, ok := kv.Key.(*ast.Ident); ok {
+				for _, f := range w.wantFields {
+					if f == id.Name {
+						var v val
+						if e := w.try(func() { v = w.expr(kv.Value) }); e == "" {
+							if w.fields == nil {
+								w.fields = map[string]string{}
+							}
+							w.fields[f] = v.Lean
+						}
+					}
+				}
+			}
+		}
 		ix, ok := m.(*ast.IndexExpr)
 		if !ok {
 			return true
 		}
-		base := types.ExprString(ix.X)
+		base := norm(types.ExprString(ix.X))
 		var v val
 		if e := w.try(func() { v = w.expr(ix.Index) }); e == "" {
 			found := false
@@ -552,19 +597,27 @@ func (w *walker) stmt(s ast.Stmt, guard string) {
 	case *ast.AssignStmt:
 		w.noteIndexes(x)
 		if x.Tok == token.ASSIGN || x.Tok == token.DEFINE {
-			w.assign(x.Lhs, x.Rhs, guard)
+			w.assignT(x.Lhs, x.Rhs, guard, x.Tok == token.DEFINE)
 		} else {
 			w.forget(x.Lhs)
 		}
 	case *ast.DeclStmt:
 		if gd, ok := x.Decl.(*ast.GenDecl); ok {
 			for _, sp := range gd.Specs {
-				if vs, ok := sp.(*ast.ValueSpec); ok && len(vs.Values) == len(vs.Names) {
+				if vs, ok := sp.(*ast.ValueSpec); ok && len(vs.Values) == len(vs.Names) && len(vs.Names) > 0 {
 					lhs := make([]ast.Expr, len(vs.Names))
 					for i, n := range vs.Names {
 						lhs[i] = n
 					}
-					w.assign(lhs, vs.Values, guard)
+					w.assignT(lhs, vs.Values, guard, true)
+				} else if ok && len(vs.Values) == 0 {
+					for _, n := range vs.Names {
+						if o := w.p.TypesInfo.ObjectOf(n); o != nil {
+							if wd, _, ok := width(o.Type()); ok {
+								w.bind(n, val{fmt.Sprintf("(0#%d)", wd), o.Type()}, "")
+							}
+						}
+					}
 				}
 			}
 		}
@@ -573,17 +626,17 @@ func (w *walker) stmt(s ast.Stmt, guard string) {
 	case *ast.ExprStmt:
 		w.noteIndexes(x)
 	case *ast.ReturnStmt:
+		w.noteIndexes(x)
 		var rs []string
-		okAll := true
 		for _, r := range x.Results {
 			var v val
 			if e := w.try(func() { v = w.expr(r) }); e != "" {
-				okAll = false
-				break
+				rs = append(rs, "")
+				continue
 			}
 			rs = append(rs, v.Lean)
 		}
-		if okAll && len(rs) > 0 {
+		if len(rs) > 0 {
 			w.rets = append(w.rets, rs)
 			w.retSrc = append(w.retSrc, types.ExprString(x.Results[0]))
 		}
@@ -720,6 +773,7 @@ type target struct {
 	Leaves map[string]leaf
 	Locals []string // locals whose final symbolic value is emitted
 	Index  []string // indexed expressions whose (single) index term is emitted
+	Fields []string // composite-literal fields whose value term is emitted
 }
 
 func bv(n int) string { return fmt.Sprintf("BitVec %d", n) }
@@ -732,7 +786,11 @@ func emitTarget(out *strings.Builder, ld *loaded, tg target, report *[]string) {
 		*report = append(*report, fmt.Sprintf("%s: anchor %s.%s NOT FOUND", tg.Name, tg.Pkg, tg.Func))
 		return
 	}
-	w := &walker{tr: &tr{p: p, leaves: tg.Leaves, used: map[string]bool{}, env: map[string]val{}}, indexes: map[string][]string{}}
+	nl := map[string]leaf{}
+	for k, v := range tg.Leaves {
+		nl[norm(k)] = v
+	}
+	w := &walker{tr: &tr{p: p, leaves: nl, used: map[string]bool{}, env: map[string]val{}}, indexes: map[string][]string{}, wantFields: tg.Fields}
 	w.stmts(fd.Body.List, "")
 	// parameter list: all leaves in a fixed (sorted by Lean name) order, so that
 	// signatures are stable whichever leaves a particular condition uses
@@ -762,11 +820,18 @@ func emitTarget(out *strings.Builder, ld *loaded, tg target, report *[]string) {
 	}()))
 	for i, rs := range w.rets {
 		for j, r := range rs {
+			if r == "" {
+				continue
+			}
 			fmt.Fprintf(out, "/-- result %d of `return %s ...` -/\ndef ret%d_%d%s := %s\n", j, w.retSrc[i], i, j, sig.String(), r)
 		}
 	}
 	for _, l := range tg.Locals {
-		if v, ok := w.env[l]; ok {
+		v, ok := w.env[l]
+		if !ok {
+			v, ok = w.captured[l]
+		}
+		if ok {
 			fmt.Fprintf(out, "def local_%s%s := %s\n", l, sig.String(), v.Lean)
 		} else {
 			fmt.Fprintf(out, "-- local %s: not available\n", l)
@@ -774,12 +839,20 @@ func emitTarget(out *strings.Builder, ld *loaded, tg target, report *[]string) {
 		}
 	}
 	for k, base := range tg.Index {
-		ix := w.indexes[base]
+		ix := w.indexes[norm(base)]
 		if len(ix) == 1 {
 			fmt.Fprintf(out, "/-- the index applied to `%s` -/\ndef index%d%s := %s\n", base, k, sig.String(), ix[0])
 		} else {
 			fmt.Fprintf(out, "-- index of %s: %d distinct index terms\n", base, len(ix))
 			*report = append(*report, fmt.Sprintf("%s: %d distinct index terms for %s", tg.Name, len(ix), base))
+		}
+	}
+	for _, f := range tg.Fields {
+		if v, ok := w.fields[f]; ok {
+			fmt.Fprintf(out, "/-- value of composite-literal field `%s` -/\ndef field_%s%s := %s\n", f, f, sig.String(), v)
+		} else {
+			fmt.Fprintf(out, "-- field %s: not available\n", f)
+			*report = append(*report, fmt.Sprintf("%s: field %s not available", tg.Name, f))
 		}
 	}
 	for _, s := range w.skipped {
